@@ -36,7 +36,7 @@ Proof.
   { apply (f_equal (@length byte)) in E. rewrite app_length, enc_packet_len in E by exact Hp. cbn in E. lia. }
   rewrite <- E. clear E. unfold enc_packet. rewrite <- app_assoc.
   fold (hdr_parse (enc_header p ++ pk_payload p ++ rest)). rewrite hdr_parse_enc by exact Hp.
-  rewrite Nat2N.id, read_upto_app by reflexivity. destruct (frames_fuel fuel rest). destruct p; reflexivity.
+  rewrite read_uptoN_app. destruct (frames_fuel fuel rest). destruct p; reflexivity.
 Qed.
 
 Lemma frames_fuel_enc : forall ps fuel, Forall wf_packet ps -> (length ps < fuel)%nat ->
@@ -105,6 +105,31 @@ Proof.
   apply Hfuel. rewrite app_length. pose proof (enc_all_len ps Hps). lia.
 Qed.
 
+(* the last payload cut short (fewer bytes than its header announces): BytesIO.read returns what is there *)
+Theorem frames_cut_payload ps p k : Forall wf_packet ps -> wf_packet p -> (k <= length (pk_payload p))%nat ->
+  frames (enc_all ps ++ enc_header p ++ firstn k (pk_payload p)) =
+  (ps ++ [{| pk_type := pk_type p; pk_time := pk_time p; pk_payload := firstn k (pk_payload p) |}], Clean).
+Proof.
+  intros Hps Hp Hk. unfold frames.
+  assert (Hfuel : forall fuel, (length ps + 1 < fuel)%nat ->
+     frames_fuel fuel (enc_all ps ++ enc_header p ++ firstn k (pk_payload p)) =
+     (ps ++ [{| pk_type := pk_type p; pk_time := pk_time p; pk_payload := firstn k (pk_payload p) |}], Clean)).
+  { induction ps as [|q ps IH]; intros fuel Hf.
+    - destruct fuel as [|[|fuel]]; [cbn in Hf; lia|cbn in Hf; lia|]. cbn [enc_all app].
+      cbn [frames_fuel].
+      destruct (enc_header p ++ firstn k (pk_payload p)) eqn:E.
+      { apply (f_equal (@length byte)) in E. rewrite app_length, enc_header_len in E by exact Hp. cbn in E. lia. }
+      rewrite <- E. clear E.
+      fold (hdr_parse (enc_header p ++ firstn k (pk_payload p))). rewrite hdr_parse_enc by exact Hp.
+      rewrite read_uptoN_spec, Nat2N.id. unfold read_upto.
+      assert (Hl : (length (firstn k (pk_payload p)) <= length (pk_payload p))%nat) by (rewrite firstn_length; lia).
+      rewrite (firstn_all2 _ Hl), (skipn_all2 _ Hl). reflexivity.
+    - destruct fuel; [cbn in Hf; lia|]. inversion Hps as [|? ? Hq Hps']; subst.
+      cbn [enc_all]. rewrite <- app_assoc. rewrite frames_step by exact Hq.
+      rewrite IH by (auto; cbn in Hf; lia). reflexivity. }
+  apply Hfuel. rewrite !app_length, enc_header_len by exact Hp. pose proof (enc_all_len ps Hps). lia.
+Qed.
+
 (* C02/C15: the budget is never exhausted - framing terminates within (bytes / 12) + 1 iterations *)
 Theorem frames_fuel_enough : forall fuel bs, (length bs < fuel)%nat -> snd (frames_fuel fuel bs) <> OutOfFuel.
 Proof.
@@ -123,10 +148,11 @@ Proof.
     destruct (split_exact 4 r1) as [[l2 r2]|] eqn:E2; cbn [bind] in E; [|discriminate].
     destruct (split_exact 4 r2) as [[l3 r3']|] eqn:E3; cbn [bind] in E; [|discriminate].
     inversion E; subst. apply G in E1. apply G in E2. apply G in E3. lia. }
-  unfold read_upto. destruct (frames_fuel fuel (skipn (N.to_nat sz) r3)) as [rest t] eqn:Er. cbn [snd].
+  rewrite read_uptoN_spec. unfold read_upto. destruct (frames_fuel fuel (skipn (N.to_nat sz) r3)) as [rest t] eqn:Er. cbn [snd].
   specialize (IH (skipn (N.to_nat sz) r3)). rewrite Er in IH. cbn [snd] in IH. apply IH.
   rewrite skipn_length. cbn [length] in *. lia.
 Qed.
 Print Assumptions frames_enc.
+Print Assumptions frames_cut_payload.
 Print Assumptions frames_cut_header.
 Print Assumptions frames_fuel_enough.
